@@ -312,3 +312,192 @@ def gen_c13_case(seed, idx):
                     names=dict(ty=ty, T=names.T, U=names.U, N=names.N, lt=names.lt, fields=fields, variants=variants))
     return dict(id=f'c13/{seed}/{idx}', item='', src=PRELUDE + '#[derive_ex(Clone)] pub struct X(i8);\n', traits=['Clone'],
                 desc=dict(shape='fallback'), scope=scope, names={})
+
+
+# ---------------------------------------------------------------- C12: twins against the standard derives
+C12_PRELUDE = '''#![allow(dead_code, unused_imports, unused_variables, unused_mut, non_camel_case_types, non_snake_case, unreachable_code, unreachable_patterns)]
+use derive_ex::{derive_ex, Ex};
+use std::fmt::Debug;
+use std::hash::{Hash, Hasher};
+use std::collections::hash_map::DefaultHasher;
+static Z0: i8 = 0; static Z1: i8 = 1;
+pub fn fmts<T: Debug + ?Sized>(v: &T) -> Vec<String> {
+    vec![format!("{:?}", v), format!("{:#?}", v), format!("{:5?}", v), format!("{:<8?}|", v), format!("{:+?}", v),
+         format!("{:.2?}", v), format!("{:x?}", v), format!("{:#x?}", v), format!("{:08?}", v), format!("{:^+9.1?}", v)]
+}
+pub fn h<T: Hash + ?Sized>(v: &T) -> u64 { let mut s = DefaultHasher::new(); v.hash(&mut s); s.finish() }
+'''
+
+C12_TRAITS = ['Clone', 'Debug', 'Default', 'PartialEq', 'Eq', 'PartialOrd', 'Ord', 'Hash']
+
+
+def _c12_case(rng, idx):
+    mod = f'c{idx}'
+    tyname = rng.choice(['X', 'X', 'X', 'r#type', 'r#struct'])
+    shape = rng.choice(['struct', 'struct', 'enum', 'enum', 'unsized', 'lifetime', 'constgen', 'empty_enum', 'default_param'])
+    fields_pool = [('i8', ['0', '1', '-1']), ('bool', ['false', 'true']), ('(i8, bool)', ['(0, true)', '(1, false)']),
+                   ('Option<i8>', ['None', 'Some(0)']), ('String', ['String::new()', 'String::from("a")'])]
+    gen_decl, gen_use = '', ''
+    where = ''
+    traits = [t for t in C12_TRAITS if rng.random() < 0.75]
+    foreign = rng.choice(['', '', '#[repr(C)] ', '#[non_exhaustive] ', '#[doc = "x"] '])
+    if shape in ('struct', 'enum') and rng.random() < 0.4:
+        gen_decl, gen_use = '<T>', '<i8>'
+        fields_pool = fields_pool + [('T', ['0', '1']), ('Option<T>', ['None', 'Some(1)']), ('(T, bool)', ['(0, true)', '(1, false)'])]
+        if rng.random() < 0.3:
+            where = ' where T: Copy'
+    if shape == 'default_param':
+        gen_decl, gen_use = '<T = i8>', ''
+        fields_pool = fields_pool + [('T', ['0', '1'])]
+        shape = 'struct'
+    if shape == 'lifetime':
+        gen_decl, gen_use = "<'a, T>", "<'static, i8>"
+        fields_pool = [("&'a T", ['&Z0', '&Z1']), ('i8', ['0', '1']), ("&'a str", ['"a"', '"b"'])]
+        traits = [t for t in traits if t != 'Default']
+        shape = rng.choice(['struct', 'enum'])
+    if shape == 'constgen':
+        gen_decl, gen_use = '<T, const N: usize>', '<i8, 2>'
+        fields_pool = [('[T; N]', ['[0, 1]', '[1, 0]']), ('i8', ['0', '1']), ('T', ['0', '1'])]
+        traits = [t for t in traits if t != 'Default']
+        shape = 'struct'
+    if 'Eq' in traits and 'PartialEq' not in traits:
+        traits.append('PartialEq')
+    if 'PartialOrd' in traits and 'PartialEq' not in traits:
+        traits.append('PartialEq')
+    if 'Ord' in traits:
+        for t in ('PartialOrd', 'Eq', 'PartialEq'):
+            if t not in traits:
+                traits.append(t)
+    if not traits:
+        traits = ['Debug']
+    raw_names = rng.random() < 0.2
+    fnames = ['r#type', 'r#fn', 'c', 'd'] if raw_names else ['a', 'b', 'c', 'd']
+    vnames = ['r#Self_', 'r#Box', 'C', 'D'] if raw_names and rng.random() < 0.5 else ['A', 'B', 'C', 'D']
+    values = []   # constructor expressions with the placeholder `@` for the module path
+
+    def mk_fields(kind, nf, pub=''):
+        fs = [rng.choice(fields_pool) for _ in range(nf)]
+        if kind == 'named':
+            decl = ' { ' + ', '.join(f'{pub}{fnames[i]}: {t}' for i, (t, _) in enumerate(fs)) + ' }'
+        elif kind == 'tuple':
+            decl = '(' + ', '.join(pub + t for t, _ in fs) + ')'
+        else:
+            decl = ''
+        # value tuples: all combinations, capped
+        combos = [[]]
+        for _, dom in fs:
+            combos = [c + [v] for c in combos for v in dom]
+        rng.shuffle(combos)
+        combos = combos[:6]
+
+        def ctor(c):
+            if kind == 'named':
+                return ' { ' + ', '.join(f'{fnames[i]}: {v}' for i, v in enumerate(c)) + ' }'
+            if kind == 'tuple':
+                return '(' + ', '.join(c) + ')'
+            return ''
+        return decl, [ctor(c) for c in combos]
+    if shape == 'empty_enum':
+        traits = [t for t in traits if t != 'Default']
+        if 'repr' in foreign:
+            foreign = ''
+        item = f'pub enum {tyname} {{}}'
+        values = []
+    elif shape == 'unsized':
+        traits = [t for t in traits if t not in ('Clone', 'Default')]
+        gen_decl, gen_use = '<T: ?Sized>', '<[i8]>'
+        kind = rng.choice(['tuple', 'named'])
+        if kind == 'tuple':
+            item = f'pub struct {tyname}<T: ?Sized>(pub i8, pub T);'
+            values = ['&@(0, [0i8, 1]) as &@<[i8]>'.replace('@', '@'), '&@(1, [1i8, 1]) as &@<[i8]>', '&@(0, [2i8, 0]) as &@<[i8]>']
+        else:
+            item = f'pub struct {tyname}<T: ?Sized> {{ pub {fnames[0]}: i8, pub {fnames[1]}: T }}'
+            values = ['&@ { %s: 0, %s: [0i8, 1] } as &@<[i8]>' % (fnames[0], fnames[1]),
+                      '&@ { %s: 1, %s: [1i8, 1] } as &@<[i8]>' % (fnames[0], fnames[1])]
+    elif shape == 'struct':
+        kind = rng.choice(['unit', 'tuple', 'tuple', 'named', 'named'])
+        nf = 0 if kind == 'unit' else rng.choice([0, 1, 2, 3, 4])
+        decl, ctors = mk_fields(kind, nf, 'pub ')
+        if kind == 'named':
+            item = f'pub struct {tyname}{gen_decl}{where}{decl}'
+        elif kind == 'tuple':
+            item = f'pub struct {tyname}{gen_decl}{decl}{where};'
+        else:
+            item = f'pub struct {tyname}{gen_decl}{where};'
+        values = [f'@{c}' for c in ctors]
+    else:
+        nv = rng.choice([1, 2, 3, 4])
+        vs = []
+        dv = None
+        kinds = [rng.choice(['unit', 'tuple', 'named']) for _ in range(nv)]
+        if 'Default' in traits:
+            if 'unit' not in kinds:
+                kinds[rng.randrange(nv)] = 'unit'
+            dv = kinds.index('unit')
+        for i in range(nv):
+            nf = 0 if kinds[i] == 'unit' else rng.choice([0, 1, 2, 3])
+            decl, ctors = mk_fields(kinds[i], nf)
+            mark = '#[default] ' if dv == i else ''
+            vs.append(f'{mark}{vnames[i]}{decl}')
+            values += [f'@::{vnames[i]}{c}' for c in ctors]
+        item = f'pub enum {tyname}{gen_decl}{where} {{ ' + ', '.join(vs) + ' }'
+    # generic parameters must be used
+    import re
+    body = item.split(tyname, 1)[1]
+    if gen_decl and shape != 'unsized':
+        inner = body[len(gen_decl):]
+        for pname in re.findall(r"(?:const )?('?[A-Za-z_]+)(?=[,>: =])", gen_decl):
+            pass
+        for pname in (['T'] if 'T' in gen_decl else []) + (['N'] if 'N' in gen_decl else []) + (["'a"] if "'a" in gen_decl else []):
+            if not re.search(r"(?<![A-Za-z0-9_'])" + re.escape(pname) + r'(?![A-Za-z0-9_])', re.sub(r'where[^{(;]*', '', inner)):
+                return None
+    tl = ', '.join(traits)
+    entry = rng.choice(['attr', 'derive'])
+    dhead = f'#[derive_ex({tl})]' if entry == 'attr' else f'#[derive(Ex)] #[derive_ex({tl})]'
+    src = f'pub mod {mod} {{ use super::*;\n pub mod d {{ use super::*; {foreign}{dhead} {item} }}\n pub mod s {{ use super::*; {foreign}#[derive({tl})] {item} }}\n'
+    is_unsized = shape == 'unsized'
+    vt_d = f'd::{tyname}{gen_use}'
+    vt_s = f's::{tyname}{gen_use}'
+    if is_unsized:
+        dv_list = ', '.join(v.replace('@<', f'd::{tyname}<').replace('@', f'd::{tyname}') for v in values)
+        sv_list = ', '.join(v.replace('@<', f's::{tyname}<').replace('@', f's::{tyname}') for v in values)
+        vec_d = f'let dv: Vec<&{vt_d}> = vec![{dv_list}];'
+        vec_s = f'let sv: Vec<&{vt_s}> = vec![{sv_list}];'
+        deref = '*'
+    else:
+        dv_list = ', '.join(v.replace('@', f'd::{tyname}') for v in values)
+        sv_list = ', '.join(v.replace('@', f's::{tyname}') for v in values)
+        vec_d = f'let dv: Vec<{vt_d}> = vec![{dv_list}];'
+        vec_s = f'let sv: Vec<{vt_s}> = vec![{sv_list}];'
+        deref = ''
+    chk = []
+    if 'Debug' in traits:
+        chk.append(f'for i in 0..dv.len() {{ n += 1; if fmts(&dv[i]) != fmts(&sv[i]) {{ println!("{mod} FAIL debug {{}} {{:?}} vs {{:?}}", i, fmts(&dv[i]), fmts(&sv[i])); }} }}')
+    if 'PartialEq' in traits:
+        chk.append(f'for i in 0..dv.len() {{ for j in 0..dv.len() {{ n += 1; if (dv[i] == dv[j]) != (sv[i] == sv[j]) {{ println!("{mod} FAIL eq {{}} {{}}", i, j); }} }} }}')
+    if 'PartialOrd' in traits:
+        chk.append(f'for i in 0..dv.len() {{ for j in 0..dv.len() {{ n += 1; if dv[i].partial_cmp(&dv[j]) != sv[i].partial_cmp(&sv[j]) {{ println!("{mod} FAIL partial_cmp {{}} {{}}", i, j); }} }} }}')
+    if 'Ord' in traits:
+        chk.append(f'for i in 0..dv.len() {{ for j in 0..dv.len() {{ n += 1; if dv[i].cmp(&dv[j]) != sv[i].cmp(&sv[j]) {{ println!("{mod} FAIL cmp {{}} {{}}", i, j); }} }} }}')
+    if 'Hash' in traits and 'PartialEq' in traits:
+        chk.append(f'for i in 0..dv.len() {{ for j in 0..dv.len() {{ n += 1; if dv[i] == dv[j] && h(&dv[i]) != h(&dv[j]) {{ println!("{mod} FAIL hash {{}} {{}}", i, j); }} }} }}')
+    if 'Clone' in traits and 'Debug' in traits and not is_unsized:
+        chk.append(f'for i in 0..dv.len() {{ n += 1; if fmts(&dv[i].clone()) != fmts(&sv[i].clone()) {{ println!("{mod} FAIL clone {{}}", i); }} }}')
+        chk.append(f'for i in 0..dv.len() {{ for j in 0..dv.len() {{ n += 1; let mut x = dv[i].clone(); x.clone_from(&dv[j]); let mut y = sv[i].clone(); y.clone_from(&sv[j]); if fmts(&x) != fmts(&y) {{ println!("{mod} FAIL clone_from {{}} {{}}", i, j); }} }} }}')
+    if 'Default' in traits and 'Debug' in traits and not is_unsized:
+        chk.append(f'n += 1; if fmts(&<{vt_d}>::default()) != fmts(&<{vt_s}>::default()) {{ println!("{mod} FAIL default"); }}')
+    src += f' pub fn run() {{ let mut n = 0u32; {vec_d} {vec_s} {" ".join(chk)} println!("{mod} ok {{}}", n); }}\n}}\n'
+    return dict(mod=mod, src=src, traits=traits, shape=shape, item=f'{dhead} {item}', raw=raw_names or tyname.startswith('r#'))
+
+
+def gen_c12_program(seed, start, count):
+    rng = random.Random(seed * 9000011 + start)
+    cases = []
+    i = start
+    while len(cases) < count:
+        c = _c12_case(rng, i)
+        if c:
+            cases.append(c)
+            i += 1
+    src = C12_PRELUDE + ''.join(c['src'] for c in cases) + 'fn main() { ' + ' '.join(f"{c['mod']}::run();" for c in cases) + ' }\n'
+    return src, cases
